@@ -1,3 +1,5 @@
+//go:build go1.23
+
 package dkg
 
 // C07: tECDSA DKG with exclusions, driven through the REAL Executor.Execute
